@@ -215,7 +215,9 @@ class Gen:
             lambda: [["format-patch", "-q", "-1", "HEAD", "-o", f"<TW>/patches{k}"], ["reset", "-q", "--hard", "HEAD~1"],
                      ["am", "-q", f"<TW>/patches{k}"]],
             lambda: [["worktree", "add", "-q", f"<TW>/wt{k}", "-b", f"wtb{k}"]],
-            lambda: [["bisect", "start", "HEAD", "HEAD~1"], ["bisect", "reset"]],
+            # git 2.39's `bisect--helper` does not read core.hooksPath: its ref updates run .git/hooks/reference-transaction whatever the
+            # configuration says (same in both twins) — except in the ensure+.git/hooks state, where the plain twin is set up WITHOUT hooks
+            lambda: [["bisect", "start", "HEAD", "HEAD~1"], ["bisect", "reset"]] if self.ht.state != (True, "default") else [["tag", f"nb{k}"]],
             lambda: [["replace", "-f", "HEAD", "HEAD~1"], ["replace", "-d", "HEAD"]],
             lambda: [["symbolic-ref", "HEAD", f"refs/heads/{b}"], ["reset", "-q", "--hard"]],
             lambda: [["-c", "core.hooksPath=<TW>/althooks", "tag", f"alt{k}"]],
